@@ -496,6 +496,27 @@ func (fa *facts) idEscape(repo string) {
 	}
 }
 
+// recvName / paramNames: the names the source gives to the receiver and the parameters — the recognisers
+// below are written in terms of them, so that renaming a receiver or a parameter does not break the tie.
+func recvName(fd *ast.FuncDecl) string {
+	if fd.Recv != nil && len(fd.Recv.List) == 1 && len(fd.Recv.List[0].Names) == 1 {
+		return fd.Recv.List[0].Names[0].Name
+	}
+
+	return "_"
+}
+
+func paramNames(fd *ast.FuncDecl) (names []string, types []string) {
+	for _, p := range fd.Type.Params.List {
+		for _, n := range p.Names {
+			names = append(names, n.Name)
+			types = append(types, exprString(p.Type))
+		}
+	}
+
+	return
+}
+
 // sysFlags: which variant of the synchronisation code is in /repo (consumed by Model/Sys.lean).
 func (fa *facts) sysFlags(repo string) {
 	fl := map[string]bool{}
@@ -503,7 +524,7 @@ func (fa *facts) sysFlags(repo string) {
 	callsClose := func(fd *ast.FuncDecl) bool {
 		found := false
 		ast.Inspect(fd, func(n ast.Node) bool {
-			if c, ok := isCall2(n, "", "close"); ok && len(c.Args) == 1 && exprString(c.Args[0]) == "s.out" {
+			if c, ok := isCall2(n, "", "close"); ok && len(c.Args) == 1 && exprString(c.Args[0]) == recvName(fd)+".out" {
 				found = true
 			}
 
@@ -565,7 +586,7 @@ func (fa *facts) sysFlags(repo string) {
 	if fd := funcDecl(lo, "LocalTransport", "Dispatch"); fd != nil {
 		locked, under := false, false
 		for _, st := range fd.Body.List {
-			if es, ok := st.(*ast.ExprStmt); ok && exprString(es.X) == "t.Lock()" {
+			if es, ok := st.(*ast.ExprStmt); ok && exprString(es.X) == recvName(fd)+".Lock()" {
 				locked = true
 			}
 			ast.Inspect(st, func(n ast.Node) bool {
@@ -603,11 +624,15 @@ func (fa *facts) sysFlags(repo string) {
 	}
 	if fd := funcDecl(bo, "BoltTransport", "dispatchHistory"); fd != nil {
 		src := nodeString(fd)
-		escape := strings.Contains(src, "toSeq > 0")
+		toSeq := "toSeq"
+		if ns, _ := paramNames(fd); len(ns) == 2 {
+			toSeq = ns[1] // the high-water mark taken at registration
+		}
+		escape := regexp.MustCompile(`\b` + regexp.QuoteMeta(toSeq) + `\s*>\s*0`).MatchString(src)
 		cut := false
 		ast.Inspect(fd, func(n ast.Node) bool {
 			if ifs, ok := n.(*ast.IfStmt); ok {
-				if b, ok := ifs.Cond.(*ast.BinaryExpr); ok && b.Op == token.GTR && exprString(b.Y) == "toSeq" && len(ifs.Body.List) == 1 {
+				if b, ok := ifs.Cond.(*ast.BinaryExpr); ok && b.Op == token.GTR && exprString(b.Y) == toSeq && len(ifs.Body.List) == 1 {
 					if br, ok := ifs.Body.List[0].(*ast.BranchStmt); ok && br.Tok == token.BREAK {
 						cut = true
 					}
@@ -682,27 +707,26 @@ func (fa *facts) sysFlags(repo string) {
 	guard := false
 	if fd := funcDecl(bo, "BoltTransport", "cleanup"); fd != nil {
 		src := nodeString(fd)
+		size, lastID, lastIDUint := recvName(fd)+".size", "lastID", false
+		if ns, ts := paramNames(fd); len(ns) == 2 {
+			lastID, lastIDUint = ns[1], ts[1] == "uint64"
+		}
 		hasGuard, hasBound := false, false
 		ast.Inspect(fd, func(n ast.Node) bool {
 			if b, ok := n.(*ast.BinaryExpr); ok {
-				if b.Op == token.GEQ && exprString(b.X) == "t.size" && exprString(b.Y) == "lastID" {
+				if b.Op == token.GEQ && exprString(b.X) == size && exprString(b.Y) == lastID {
 					hasGuard = true
 				}
-				if b.Op == token.SUB && exprString(b.X) == "lastID" && exprString(b.Y) == "t.size" {
+				if b.Op == token.LEQ && exprString(b.X) == lastID && exprString(b.Y) == size {
+					hasGuard = true // the same unsigned comparison written the other way round
+				}
+				if b.Op == token.SUB && exprString(b.X) == lastID && exprString(b.Y) == size {
 					hasBound = true
 				}
 			}
 
 			return true
 		})
-		lastIDUint := false
-		for _, p := range fd.Type.Params.List {
-			for _, n := range p.Names {
-				if n.Name == "lastID" && exprString(p.Type) == "uint64" {
-					lastIDUint = true
-				}
-			}
-		}
 		guard = hasGuard && hasBound && lastIDUint && !regexp.MustCompile(`\bint(8|16|32|64)?\(`).MatchString(src)
 		if !guard {
 			fa.errf("bolt.go: cleanup: guard/bound shape not recognised (guard=%v bound=%v uint64=%v)", hasGuard, hasBound, lastIDUint)
